@@ -11,11 +11,13 @@ Parsed:
   * every PrintT(ToJson(..)) line -> decoded JSON object (TLC prints a TLA+ string literal holding JSON)
   * -coverage 1 per-action counts  <Name line ..>: distinct:generated
 """
+import collections
 import json
 import os
 import re
 import shutil
 import subprocess
+import threading
 import time
 
 JAR = '/opt/veriftools/tla/tla2tools.jar'
@@ -33,6 +35,17 @@ class TLCError(Exception):
     """machinery failure (crash, timeout, parse error in the spec...) -> exit 2"""
 
 
+class _Sink:
+    """list-like adapter: PrintT values are handed to a callback instead of being kept"""
+    def __init__(self, fn):
+        self.fn = fn
+        self.count = 0
+
+    def append(self, x):
+        self.count += 1
+        self.fn(x)
+
+
 class TLCResult:
     def __init__(self):
         self.generated = 0
@@ -43,6 +56,7 @@ class TLCResult:
         self.violated = []        # names of violated invariants / properties
         self.behaviour = ''       # counterexample text
         self.printed = []         # decoded PrintT JSON values
+        self.nprinted = 0
         self.coverage = {}        # action name -> (distinct, generated)
         self.wall = 0.0
         self.cmd = ''
@@ -76,16 +90,18 @@ def _decode_printed(line, out, junk):
             continue
         if inner[:1] in '{[':
             try:
-                out.append(json.loads(inner))
-                found = True
+                val = json.loads(inner)
             except ValueError:
                 junk.append(inner[:200])
+                continue
+            out.append(val)
+            found = True
         pos = m.end()
     return found
 
 
 def run(module, cfg, workdir, workers=16, timeout=600, coverage=False, simulate=None, depth=None,
-        seed=None, env=None, deadlock=None, extra=(), jvm=(), dfs=False, spec_dir=None, keep_stdout=False):
+        seed=None, env=None, deadlock=None, extra=(), jvm=(), dfs=False, spec_dir=None, on_json=None):
     """Run TLC on spec/<module>.tla with spec/<cfg>.  Returns TLCResult.  Raises TLCError on machinery failure."""
     spec_dir = spec_dir or SPEC_DIR
     os.makedirs(workdir, exist_ok=True)
@@ -113,69 +129,77 @@ def run(module, cfg, workdir, workers=16, timeout=600, coverage=False, simulate=
     res = TLCResult()
     res.cmd = ' '.join(cmd[cmd.index('tlc2.TLC'):])
     t0 = time.time()
-    try:
-        p = subprocess.run(cmd, cwd=spec_dir, env=e, stdout=subprocess.PIPE, stderr=subprocess.STDOUT,
-                           timeout=timeout, text=True, errors='replace')
-    except subprocess.TimeoutExpired as ex:
-        shutil.rmtree(meta, ignore_errors=True)
-        raise TLCError('TLC timed out after %ss: %s' % (timeout, res.cmd)) from ex
-    finally:
-        res.wall = time.time() - t0
-    shutil.rmtree(meta, ignore_errors=True)
-    res.returncode = p.returncode
-    out = p.stdout
     junk = []
     in_beh = False
     beh = []
-    lines = out.split('\n')
-    for line in lines:
-        if line.startswith('"'):
-            _decode_printed(line, res.printed, junk)
-            continue
-        m = _STATES.search(line)
-        if m:
-            res.generated, res.distinct, res.queue = int(m.group(1)), int(m.group(2)), int(m.group(3))
-            continue
-        m = _SIM.search(line)
-        if m:
-            res.generated = max(res.generated, int(m.group(1)))
-        m = _DEPTH.search(line)
-        if m:
-            res.depth = int(m.group(1))
-        m = _COV.match(line)
-        if m:
-            name = m.group(1)
-            d, g = int(m.group(4)), int(m.group(5))
-            pd, pg = res.coverage.get(name, (0, 0))
-            res.coverage[name] = (pd + d, pg + g)
-            continue
-        if line.startswith('Error:'):
-            in_beh = True
-            mm = re.match(r'Error: Invariant (\S+) is violated', line)
-            if mm:
-                res.violated.append(mm.group(1))
-            elif re.match(r'Error: Action property (\S+)', line):
-                res.violated.append(re.match(r'Error: Action property (\S+)', line).group(1))
-            elif 'Temporal properties were violated' in line:
-                res.violated.append('TemporalProperty')
-            elif 'The behavior up to this point is' in line or 'The following behavior constitutes' in line:
-                pass
-            elif 'Postcondition' in line or 'POSTCONDITION' in line or 'postcondition' in line:
-                res.post_failed = True
-                res.errors.append(line)
-            elif 'Deadlock reached' in line:
-                res.violated.append('Deadlock')
-            else:
-                res.errors.append(line)
-        if in_beh:
-            if line.startswith('The coverage statistics') or _STATES.search(line):
+    tail = collections.deque(maxlen=80)
+    sink = res.printed if on_json is None else _Sink(on_json)
+    timed_out = False
+    p = subprocess.Popen(cmd, cwd=spec_dir, env=e, stdout=subprocess.PIPE, stderr=subprocess.STDOUT, text=True,
+                         errors='replace', bufsize=1 << 20)
+    timer = threading.Timer(timeout, p.kill)
+    timer.start()
+    try:
+        for line in p.stdout:
+            line = line.rstrip('\n')
+            if line.startswith('"'):
+                _decode_printed(line, sink, junk)
+                continue
+            tail.append(line)
+            m = _STATES.search(line)
+            if m:
+                res.generated, res.distinct, res.queue = int(m.group(1)), int(m.group(2)), int(m.group(3))
                 in_beh = False
-            else:
-                beh.append(line)
+                continue
+            m = _SIM.search(line)
+            if m:
+                res.generated = max(res.generated, int(m.group(1)))
+            m = _DEPTH.search(line)
+            if m:
+                res.depth = int(m.group(1))
+            m = _COV.match(line)
+            if m:
+                name = m.group(1)
+                d, g = int(m.group(4)), int(m.group(5))
+                pd, pg = res.coverage.get(name, (0, 0))
+                res.coverage[name] = (pd + d, pg + g)
+                continue
+            if line.startswith('Error:'):
+                in_beh = True
+                mm = re.match(r'Error: Invariant (\S+) is violated', line)
+                if mm:
+                    res.violated.append(mm.group(1))
+                elif re.match(r'Error: Action property (\S+)', line):
+                    res.violated.append(re.match(r'Error: Action property (\S+)', line).group(1))
+                elif 'Temporal properties were violated' in line:
+                    res.violated.append('TemporalProperty')
+                elif 'The behavior up to this point is' in line or 'The following behavior constitutes' in line:
+                    pass
+                elif 'ostcondition' in line or 'POSTCONDITION' in line:
+                    res.post_failed = True
+                    res.errors.append(line)
+                elif 'Deadlock reached' in line:
+                    res.violated.append('Deadlock')
+                else:
+                    res.errors.append(line)
+            if in_beh:
+                if line.startswith('The coverage statistics'):
+                    in_beh = False
+                elif len(beh) < 400:
+                    beh.append(line)
+        p.wait()
+    finally:
+        timed_out = not timer.is_alive() and p.returncode is not None and p.returncode < 0
+        timer.cancel()
+        res.wall = time.time() - t0
+        shutil.rmtree(meta, ignore_errors=True)
+    if timed_out:
+        raise TLCError('TLC timed out after %ss: %s' % (timeout, res.cmd))
+    res.returncode = p.returncode
+    res.nprinted = sink.count if isinstance(sink, _Sink) else len(res.printed)
+    lines = list(tail)
     res.behaviour = '\n'.join(beh[:400])
     res.stdout_tail = '\n'.join(lines[-60:])
-    if keep_stdout:
-        res.stdout = out
     if junk:
         raise TLCError('unparsable PrintT output (%d fragments), e.g. %r' % (len(junk), junk[:2]))
     # machinery failures: parse/semantic errors, JVM crashes, evaluation errors that are not property violations
